@@ -480,10 +480,10 @@ def check_callbacks_call_the_lambda(repo, rep, uni):
     mod = repo.module(REGEX)
     n = 0
     for fi in mod.functions.values():
-        nested = fi.parent_func is not None
-        method = fi.cls is not None and fi.name == '__call__'
-        if not (nested or method):
-            continue
+        if fi.key in uni.payload_ov:
+            continue       # the operators themselves; callbacks are what
+            #                they hand to re: nested defs, __call__ of a
+            #                private class, private helpers made partial
         env = uni.env(fi)
         g = cfgmod.CFG(fi.node)
         evals = []
@@ -545,6 +545,9 @@ def check_python_rendering_of_values(repo, rep, uni):
             excl = all(('%s is %s' % (x, k), False) in lits or
                        ('%s is not %s' % (x, k), True) in lits
                        for k in ('None', 'True', 'False'))
+            if not excl:
+                excl = {None, True, False} <= _identity_table_exits(
+                    repo, fi, c, x)
             is_str = any(p and e.startswith('isinstance(%s, ' % x) and
                          e[len('isinstance(%s, ' % x):-1] in (
                              'str', '(str,)') for e, p in lits)
@@ -558,6 +561,42 @@ def check_python_rendering_of_values(repo, rep, uni):
                    model.norm(c), loc=fi.module.loc(c),
                    construct=model.norm(c))
     rep.floor('python renderings of evaluation values', n, 1)
+
+
+def _identity_table_exits(repo, fi, call, x):
+    """Constants k for which a loop `for k, ... in TABLE: if x is k: return`
+    over a module-level constant table runs to its end before `call`."""
+    out = set()
+    stmt = model.enclosing(call, ast.stmt)
+    body = model.strip_docstring(fi.node.body)
+    if stmt not in body:
+        return out
+    for st in body[:body.index(stmt)]:
+        if not isinstance(st, ast.For) or st.orelse:
+            continue
+        var = st.target.elts[0] if isinstance(st.target, ast.Tuple) and \
+            st.target.elts else st.target
+        if not isinstance(var, ast.Name):
+            continue
+        if not (len(st.body) == 1 and isinstance(st.body[0], ast.If) and
+                not st.body[0].orelse and
+                model.norm(st.body[0].test) == '%s is %s' % (x, var.id) and
+                isinstance(st.body[0].body[-1], ast.Return)):
+            continue
+        d = repo.resolve(fi.module, st.iter, model.scope_locals(fi)) \
+            if isinstance(st.iter, (ast.Name, ast.Attribute)) else None
+        tgt = repo.lookup(d) if d else None
+        table = tgt[2] if isinstance(tgt, tuple) and tgt[0] == 'const' \
+            else st.iter
+        if not isinstance(table, (ast.Tuple, ast.List)):
+            continue
+        for row in table.elts:
+            k = row.elts[0] if isinstance(row, (ast.Tuple, ast.List)) and \
+                row.elts and isinstance(st.target, ast.Tuple) else row
+            if isinstance(k, ast.Constant) and (
+                    k.value is None or isinstance(k.value, bool)):
+                out.add(k.value)
+    return out
 
 
 def _declared_without_bool_and_null(uni, fi, name):
